@@ -1267,3 +1267,6 @@ func (d *C14) OpenProbe(blob int) {
 	d.line([]int64{31, int64(blob)}, []int64{int64(err)})
 	d.Stats["open-probe"]++
 }
+
+// C14Less orders two descriptors like the model's sort_rpcs.
+func C14Less(a, b []int64) bool { return lessKey(descrKey(a), descrKey(b)) }
